@@ -49,3 +49,11 @@ add("C17", "model_checking",
     "five-way range split is decided for ALL astral ranges. Corpus patterns go through jsonschema.main.fix_pattern_for_utf16 and a z3 query per probe shape.",
     "Seven skeletons x quantifiers, probe <= 2 (3) scalars; trees mirror what the parser accepts (replayed at text level through retree.parse and re). "
     "Three open known findings ('.'/complemented sets and BMP ranges spanning the surrogate block on astral input).")
+
+add("C15", "model_checking",
+    "bounded symbolic execution (CrossHair/z3) of infer_constraints_by_class on real-front-end IRs with symbolic comparison constants, operand orders and probe length",
+    "Six template meta-models go through the real front end; operator, operand order and constant of each length invariant are then symbolic "
+    "(IR-level holes) and the real inference (_len, _inline merging over inheritance and constrained primitives) runs; the inferred [min,max] must admit a "
+    "symbolic probe length exactly when the conjunction of the recognised comparisons does, errors exactly when that conjunction is unsatisfiable.",
+    "Length constraints only (pattern / constant-set inference is name and identity bookkeeping, outside the symbolic part). Templates and bounds in evidence. "
+    "One open known finding (contradictions across inheritance raise ViolationError).")
